@@ -17,6 +17,7 @@ pub mod ingress;
 pub mod codec;
 pub mod http;
 pub mod rib;
+pub mod gate;
 
 /// A pause-point handler installed per thread by a harness.
 pub type PointFn = Arc<dyn Fn(&'static str) + Send + Sync>;
